@@ -931,6 +931,10 @@ def ladder_findings(seed, full=False, max_findings=4):
         betas = sorted({1.0} | {rng.choice(plumbing.DYADIC_BETAS[1:]) for _ in range(nt - 1)}, reverse=True)
         if rng.random() < 0.5 and len(betas) > 1:
             betas[-1] = 0.0
+        # equal betas are legal (levels at the same temperature): the ladder keeps every one of them
+        dup = rng.random() < 0.25 and len(betas) >= 2
+        if dup:
+            betas = sorted(betas + [rng.choice(betas)], reverse=True)
         given = list(betas)
         order = rng.choice(['descending', 'ascending', 'shuffled'])
         if order == 'ascending':
@@ -939,7 +943,7 @@ def ladder_findings(seed, full=False, max_findings=4):
             rng.shuffle(given)
         if rng.random() < 0.5:
             given = numpy.array(given)
-        dyn = rng.random() < 0.6 and len(betas) >= 3 and all(b > 0 for b in betas[:-1])
+        dyn = rng.random() < 0.6 and len(betas) >= 3 and all(b > 0 for b in betas[:-1]) and not dup
         tmax_prior = rng.random() < 0.6
         ann = DynamicalAnnealer(tau=rng.choice([20, 50, 1000]), nu=rng.choice([2, 4, 10]), Tmax_prior=tmax_prior) \
             if dyn else None
@@ -961,6 +965,8 @@ def ladder_findings(seed, full=False, max_findings=4):
                 want = want[:-1] + [0.0]
             if list(f) != want:
                 bad('not-sorted', 'betas given as %s are held as %s' % (list(given), list(f)), cfg)
+            if len(ch.chains) != len(want):
+                bad('level-count', '%d betas were given but the chain has %d levels' % (len(want), len(ch.chains)), cfg)
         for it in range(1, (60 if full else 25) + 1):
             with SweepCapture() as cap:
                 smp.run(1)
